@@ -790,6 +790,66 @@ pub fn glr_grammars() -> Vec<(String, Value)> {
     v
 }
 
+/// Round 11 (C03 only; kept apart from `glr_grammars`, which the C15 bin also walks): declared-conflict
+/// grammars whose competing readings are merged AT ONE REDUCE inside a rule with its own dynamic precedence.
+#[allow(dead_code)]
+pub fn glr_same_reduce_grammars() -> Vec<(String, Value)> {
+    let mut v = Vec::new();
+    // competing readings MERGED AT ONE REDUCE: the same symbol over the same span with
+    // different child lists (`x → a a` vs `x → y`, `y → a a`, …), so both survive as two links of one
+    // stack node until the ENCLOSING statement is reduced; that statement carries its own dynamic
+    // precedence `p` (both signs / zero), the readings carry `q` (via y) and `r` (direct); ties (q = r) included.
+    // shapes: 0 = x → a a | y            (y → a a)
+    //         1 = x → a a | y a          (y → a: different child counts, the nested rule is a prefix)
+    //         2 = x → a a | y | z        (three readings, y and z with their own values)
+    //         3 = shape 0 with the statement nested once more: stmt → w ';', w → x (w carries p)
+    let dynw = |v: i64, body: Value| if v != 0 { prec("PREC_DYNAMIC", v, body) } else { body };
+    for (k, (shape, p, q, r)) in [
+        (0usize, 2i64, 1i64, 0i64), (0, -2, 1, 0), (0, 3, -1, 0), (0, -1, -2, 0), (0, 2, 1, 1), (0, 1, 0, 2), (0, -2, 3, 2),
+        (1, 2, 1, 0), (1, -2, 1, 0), (1, 3, 0, 1), (1, -1, 2, 2),
+        (2, 2, 1, 0), (2, -2, 1, 3), (2, 3, -1, -2),
+        (3, 2, 1, 0), (3, -2, 1, 0), (3, 1, -1, -2),
+    ].iter().enumerate() {
+        let name = format!("c03glr_same{k}");
+        let aa = || seq(vec![sym("a"), sym("a")]);
+        let mut rules: Vec<(String, Value)> = vec![("program".into(), rep(sym("stmt")))];
+        let mut conflicts = vec!["x".to_string(), "y".to_string()];
+        if *shape == 3 {
+            rules.push(("stmt".into(), seq(vec![sym("w"), s(";")])));
+            rules.push(("w".into(), dynw(*p, sym("x"))));
+        } else {
+            rules.push(("stmt".into(), dynw(*p, seq(vec![sym("x"), s(";")]))));
+        }
+        match *shape {
+            1 => {
+                rules.push(("x".into(), choice(vec![dynw(*r, aa()), seq(vec![sym("y"), sym("a")])])));
+                rules.push(("y".into(), dynw(*q, sym("a"))));
+            }
+            2 => {
+                rules.push(("x".into(), choice(vec![aa(), sym("y"), sym("z")])));
+                rules.push(("y".into(), dynw(*q, aa())));
+                rules.push(("z".into(), dynw(*r, aa())));
+                conflicts.push("z".into());
+            }
+            _ => {
+                rules.push(("x".into(), choice(vec![dynw(*r, aa()), sym("y")])));
+                rules.push(("y".into(), dynw(*q, aa())));
+            }
+        }
+        rules.push(("a".into(), s("a")));
+        v.push((name.clone(), grammar(&name, rules, vec![pattern("\\s")], vec![], vec![conflicts])));
+    }
+    v
+}
+
+/// every hand-written declared-conflict grammar of the C03 explorer (`glr:<name>` specs)
+#[allow(dead_code)]
+pub fn glr_grammars_c03() -> Vec<(String, Value)> {
+    let mut v = glr_grammars();
+    v.extend(glr_same_reduce_grammars());
+    v
+}
+
 /// A "rich" statement/expression grammar for the determinism and merge-equivalence runs of C15:
 /// every table of the generated parser whose order could come from a map is made non-trivial —
 /// several different aliases per non-terminal and per token, many fields, supertypes, a word token
